@@ -1221,7 +1221,13 @@ func (fr *Frame) unop(x *ssa.UnOp, b *ssa.BasicBlock, st *State) *State {
 		if a.Kind == aGlobal {
 			if gl, ok := x.X.(*ssa.Global); ok {
 				if o, ok := gl.Object().(*types.Var); ok {
-					fr.vals[x] = fc.globalVal(st, o)
+					gv := fc.globalVal(st, o)
+					if kindOf(t) == KStruct && len(gv.Sub) == 0 {
+						// a struct-typed package variable is an object of its own (its ref is a constant): reading the
+						// variable as a value reads that object's fields
+						gv = fc.load(st, &Addr{Kind: aCell, Obj: gv.S}, t)
+					}
+					fr.vals[x] = gv
 					return st
 				}
 			}
